@@ -38,6 +38,8 @@ type vNet struct {
 	tapPacket func(from, to *vSimTransport, buf []byte, fate string)
 	tapStream func(from, to *vSimTransport, dir string, buf []byte)
 	stats     struct{ sent, lost, dup, blocked, dials, dialFail int }
+	// streamHook lets a harness adjust both ends of a new stream (limits, counters)
+	streamHook func(client, server *vConn)
 }
 
 func vNewNet(seed int64) *vNet {
@@ -213,9 +215,12 @@ func (t *vSimTransport) DialAddressTimeout(a Address, timeout time.Duration) (ne
 	}
 	c1, c2 := net.Pipe()
 	client := &vConn{Conn: c2, local: &net.TCPAddr{IP: t.ip, Port: 40000 + t.gen}, remote: &net.TCPAddr{IP: dest.ip, Port: dest.port},
-		from: t, to: dest, dir: "c2s", tap: tap, cutAfter: cutAfter, delay: delay}
+		from: t, to: dest, dir: "c2s", tap: tap, cutAfter: cutAfter, delay: delay, limit: -1}
 	server := &vConn{Conn: c1, local: &net.TCPAddr{IP: dest.ip, Port: dest.port}, remote: &net.TCPAddr{IP: t.ip, Port: 40000 + t.gen},
-		from: dest, to: t, dir: "s2c", tap: tap, cutAfter: -1, delay: delay}
+		from: dest, to: t, dir: "s2c", tap: tap, cutAfter: -1, delay: delay, limit: -1}
+	if n.streamHook != nil {
+		n.streamHook(client, server)
+	}
 	select {
 	case dest.streamCh <- server:
 	default:
@@ -249,6 +254,11 @@ type vConn struct {
 	cutAfter      int
 	written       int
 	delay         time.Duration
+	// in-transit loss: the writer believes everything was written, the reader gets
+	// only the first `limit` bytes and then end-of-stream (limit < 0: off)
+	limit     int
+	forwarded int
+	count     *int // total bytes the writer handed over (for measuring)
 }
 
 func (c *vConn) LocalAddr() net.Addr  { return c.local }
@@ -257,6 +267,23 @@ func (c *vConn) RemoteAddr() net.Addr { return c.remote }
 func (c *vConn) Write(b []byte) (int, error) {
 	if c.tap != nil {
 		c.tap(c.from, c.to, c.dir, b)
+	}
+	if c.count != nil {
+		*c.count += len(b)
+	}
+	if c.limit >= 0 {
+		room := c.limit - c.forwarded
+		if room > 0 {
+			k := min(room, len(b))
+			if _, err := c.Conn.Write(b[:k]); err != nil {
+				return 0, err
+			}
+			c.forwarded += k
+		}
+		if c.forwarded >= c.limit {
+			_ = c.Conn.Close()
+		}
+		return len(b), nil
 	}
 	if c.delay > 0 {
 		time.Sleep(c.delay)
